@@ -272,3 +272,290 @@ Proof.
     + replace ((0 <=? r + j) && true && (0 <=? c) && (c <? nc)) with true by lia. reflexivity.
     + rewrite andb_false_r. reflexivity.
 Qed.
+
+(* ---------------------------------------------------------------- what an arm is *)
+
+(* the last pixel of an arm is usable (hence inside the image) *)
+Lemma ray_arm_bounds : forall get dist inten v,
+  let k := ray_arm get dist inten v in
+  0 <= k /\ (1 <= k -> get k <> None).
+Proof.
+  intros. subst k. unfold ray_arm.
+  pose proof (take_while_span (takes get inten v) (Z.to_nat (dist - 1)) 1) as T.
+  cbv zeta in T. destruct T as (T1 & T2 & T3).
+  set (k' := length (take_while (takes get inten v) (span 1 (Z.to_nat (dist - 1))))) in *.
+  destruct (0 <? Z.of_nat k') eqn:E.
+  - split; [lia|]. intros _. specialize (T2 (Z.of_nat k')).
+    assert (Ht : takes get inten v (Z.of_nat k') = true) by (apply T2; lia).
+    unfold takes in Ht. destruct (get (Z.of_nat k')); congruence.
+  - destruct (get 1) eqn:G; split; try lia; intros; congruence.
+Qed.
+
+(* the executable arm length is the one described declaratively in the specification *)
+Lemma ray_arm_is_arm : forall get dist inten v, is_arm get dist inten v (ray_arm get dist inten v).
+Proof.
+  intros. unfold is_arm, ray_arm.
+  pose proof (take_while_span (takes get inten v) (Z.to_nat (dist - 1)) 1) as T.
+  cbv zeta in T. destruct T as (T1 & T2 & T3).
+  set (k' := length (take_while (takes get inten v) (span 1 (Z.to_nat (dist - 1))))) in *.
+  exists (Z.of_nat k'). split.
+  - unfold is_longest_run. repeat split; intros; try lia.
+    + apply T2. lia.
+    + replace (Z.of_nat k' + 1) with (1 + Z.of_nat k') by lia. apply T3. lia.
+  - destruct (0 <? Z.of_nat k') eqn:E; [left | right]; split; auto; lia.
+Qed.
+
+Lemma longest_run_unique : forall get dist inten v k1 k2,
+  is_longest_run get dist inten v k1 -> is_longest_run get dist inten v k2 -> k1 = k2.
+Proof.
+  assert (A : forall get dist inten v k1 k2,
+    is_longest_run get dist inten v k1 -> is_longest_run get dist inten v k2 -> k1 < k2 -> False).
+  { intros get dist inten v k1 k2 (A1 & A2 & A3) (B1 & B2 & B3) Hlt.
+    destruct (B2 (k1 + 1)) as [C1 C2]; [lia|]. rewrite A3 in C2 by lia. discriminate. }
+  intros. destruct (Z.lt_trichotomy k1 k2) as [Hlt | [Heq | Hgt]]; auto; exfalso; eauto.
+Qed.
+
+Theorem ray_arm_iff_is_arm : forall get dist inten v k,
+  is_arm get dist inten v k <-> k = ray_arm get dist inten v.
+Proof.
+  intros. split.
+  - intros (run & Hrun & Hk).
+    destruct (ray_arm_is_arm get dist inten v) as (run' & Hrun' & Hk').
+    assert (run = run') by (eapply longest_run_unique; eauto). subst run'.
+    destruct Hk as [[? ?] | [? ?]], Hk' as [[? ?] | [? ?]]; lia || congruence.
+  - intros ->. apply ray_arm_is_arm.
+Qed.
+
+Lemma spec_arm_inside : forall I dist inten d r c,
+  let k := spec_arm I dist inten d r c in
+  0 <= k /\ (1 <= k -> inside I (r + k * drow d) (c + k * dcol d) = true).
+Proof.
+  intros. subst k. unfold spec_arm. destruct (px I r c) as [v|]; [|split; [lia|intros; lia]].
+  destruct (ray_arm_bounds (ray I r c d) dist inten v) as [B1 B2].
+  split; auto. intros H1. specialize (B2 H1). unfold ray, px in B2.
+  destruct (inside I _ _); congruence.
+Qed.
+
+(* in-range side conditions of every array read of steps 2 and 4 *)
+Lemma spec_arm_in_image : forall I dist inten r c,
+  0 <= r < f_nr I -> 0 <= c < f_nc I ->
+  0 <= spec_arm I dist inten DLeft r c <= c /\
+  0 <= spec_arm I dist inten DRight r c <= f_nc I - 1 - c /\
+  0 <= spec_arm I dist inten DUp r c <= r /\
+  0 <= spec_arm I dist inten DDown r c <= f_nr I - 1 - r.
+Proof.
+  intros.
+  destruct (spec_arm_inside I dist inten DLeft r c) as [L1 L2].
+  destruct (spec_arm_inside I dist inten DRight r c) as [R1 R2].
+  destruct (spec_arm_inside I dist inten DUp r c) as [U1 U2].
+  destruct (spec_arm_inside I dist inten DDown r c) as [D1 D2].
+  unfold inside in *. simpl in *.
+  repeat split; auto.
+  - destruct (Z_le_gt_dec 1 (spec_arm I dist inten DLeft r c)); [specialize (L2 l)|]; lia.
+  - destruct (Z_le_gt_dec 1 (spec_arm I dist inten DRight r c)); [specialize (R2 l)|]; lia.
+  - destruct (Z_le_gt_dec 1 (spec_arm I dist inten DUp r c)); [specialize (U2 l)|]; lia.
+  - destruct (Z_le_gt_dec 1 (spec_arm I dist inten DDown r c)); [specialize (D2 l)|]; lia.
+Qed.
+
+(* an arm never exceeds max(1, dist - 1) pixels and a masked pixel has none *)
+Lemma spec_arm_masked : forall I dist inten d r c, px I r c = None -> spec_arm I dist inten d r c = 0.
+Proof. intros. unfold spec_arm. rewrite H. reflexivity. Qed.
+
+(* ================================================================ sums *)
+
+Definition psum (f : Z -> Q) (a n : Z) : Q := qsum (map f (zrange a n)).
+
+Lemma qadd_ok : forall a b, qadd a b == a + b.
+Proof. intros. unfold qadd. apply Qred_correct. Qed.
+Lemma qsub_ok : forall a b, qsub a b == a - b.
+Proof. intros. unfold qsub. apply Qred_correct. Qed.
+
+Lemma qsum_app : forall l1 l2, qsum (l1 ++ l2) == qsum l1 + qsum l2.
+Proof.
+  induction l1; intros; simpl.
+  - ring.
+  - rewrite IHl1. ring.
+Qed.
+
+Lemma psum_nil : forall f a n, n <= 0 -> psum f a n = 0%Q.
+Proof. intros. unfold psum. rewrite zrange_nil by lia. reflexivity. Qed.
+
+Lemma psum_split : forall f a n m, 0 <= n -> 0 <= m ->
+  psum f a (n + m) == psum f a n + psum f (a + n) m.
+Proof. intros. unfold psum. rewrite zrange_app by lia. rewrite map_app. apply qsum_app. Qed.
+
+Lemma psum_one : forall f a, psum f a 1 == f a.
+Proof. intros. unfold psum. rewrite zrange_one. simpl. ring. Qed.
+
+Lemma psum_ext : forall f g a n,
+  (forall x, a <= x < a + n -> f x == g x) -> psum f a n == psum g a n.
+Proof.
+  intros f g a n H. unfold psum.
+  assert (A : forall l, (forall x, In x l -> f x == g x) -> qsum (map f l) == qsum (map g l)).
+  { induction l; intros; simpl; [reflexivity|].
+    rewrite IHl by (intros; apply H0; right; auto). rewrite (H0 a0) by (left; auto). reflexivity. }
+  apply A. intros x Hx. apply in_zrange in Hx. apply H. lia.
+Qed.
+
+(* ---------------------------------------------------------------- cbca_step_1 *)
+
+Lemma step1_inv : forall nc cvrow k, Z.of_nat k <= nc ->
+  let a := fold_left (fun a c => updz a c (qadd (a (wrap (nc + 1) (c - 1))) (nz (cvrow c))))
+                     (zrange 0 (Z.of_nat k)) (fun _ => 0%Q) in
+  (forall c, 0 <= c < Z.of_nat k -> a c == psum (fun j => nz (cvrow j)) 0 (c + 1)) /\
+  (forall c, c < 0 \/ Z.of_nat k <= c -> a c = 0%Q).
+Proof.
+  induction k; intros Hk.
+  - simpl. split; intros; [lia | reflexivity].
+  - replace (Z.of_nat (S k)) with (Z.of_nat k + 1) in * by lia.
+    rewrite zrange_app, zrange_one by lia. rewrite fold_left_app. cbn [fold_left].
+    destruct IHk as [I1 I2]; [lia|].
+    set (a0 := fold_left _ (zrange 0 (Z.of_nat k)) _) in *.
+    replace (0 + Z.of_nat k) with (Z.of_nat k) by lia.
+    split; intros c Hc; unfold updz.
+    + destruct (c =? Z.of_nat k) eqn:E.
+      * assert (c = Z.of_nat k) by lia. subst c. rewrite qadd_ok.
+        rewrite psum_split, psum_one by lia. replace (0 + Z.of_nat k) with (Z.of_nat k) by lia.
+        unfold wrap. destruct (Z.of_nat k - 1 <? 0) eqn:W.
+        -- (* first column: the read goes through index -1 to the sentinel column *)
+           rewrite I2 by lia. rewrite psum_nil by lia. reflexivity.
+        -- rewrite I1 by lia. replace (Z.of_nat k - 1 + 1) with (Z.of_nat k) by lia. reflexivity.
+      * apply I1. lia.
+    + destruct (c =? Z.of_nat k) eqn:E; [lia|]. apply I2. lia.
+Qed.
+
+(* every read of step 1 made by step 2, including the one through index -1 *)
+Lemma step1_read : forall nc cvrow i, 0 <= nc -> -1 <= i < nc ->
+  step1_row nc cvrow (wrap (nc + 1) i) == psum (fun j => nz (cvrow j)) 0 (i + 1).
+Proof.
+  intros. unfold step1_row.
+  destruct (step1_inv nc cvrow (Z.to_nat nc)) as [I1 I2]; [lia|].
+  replace (Z.of_nat (Z.to_nat nc)) with nc in * by lia.
+  unfold wrap. destruct (i <? 0) eqn:E.
+  - rewrite I2 by lia. rewrite psum_nil by lia. reflexivity.
+  - apply I1. lia.
+Qed.
+
+(* the sentinel column of step 1 is never written: a read through index -1 returns 0 *)
+Theorem step1_read_minus_one_is_zero : forall nc cvrow, 0 <= nc ->
+  step1_row nc cvrow (wrap (nc + 1) (-1)) = 0%Q.
+Proof.
+  intros. unfold step1_row.
+  destruct (step1_inv nc cvrow (Z.to_nat nc)) as [_ I2]; [lia|].
+  replace (Z.of_nat (Z.to_nat nc)) with nc in * by lia.
+  apply I2. unfold wrap. change (-1 <? 0) with true. cbv iota. lia.
+Qed.
+
+(* telescoping: S_h(b) - S_h(a - 1) is the sum of the costs of columns a..b *)
+Lemma step1_diff : forall nc cvrow a b, 0 <= a -> a <= b -> b < nc ->
+  step1_row nc cvrow b - step1_row nc cvrow (wrap (nc + 1) (a - 1))
+  == psum (fun j => nz (cvrow j)) a (b - a + 1).
+Proof.
+  intros.
+  assert (Hb : step1_row nc cvrow b == psum (fun j => nz (cvrow j)) 0 (b + 1)).
+  { replace b with (wrap (nc + 1) b) at 1 by (unfold wrap; destruct (b <? 0) eqn:E; lia).
+    apply step1_read; lia. }
+  rewrite Hb, step1_read by lia.
+  replace (b + 1) with (a + (b - a + 1)) by lia. rewrite psum_split by lia.
+  replace (a - 1 + 1) with a by lia. replace (0 + a) with a by lia. ring.
+Qed.
+
+(* ---------------------------------------------------------------- cbca_step_3 *)
+
+Lemma step3_inv : forall nr col k, Z.of_nat k <= nr - 1 ->
+  let a := fold_left (fun a r => updz a r (qadd (a (r - 1)) (col r)))
+                     (zrange 1 (Z.of_nat k)) (updz (fun _ => 0%Q) 0 (col 0)) in
+  (forall r, 0 <= r <= Z.of_nat k -> a r == psum col 0 (r + 1)) /\
+  (forall r, r < 0 \/ Z.of_nat k < r -> a r = 0%Q).
+Proof.
+  induction k; intros Hk.
+  - simpl. unfold updz. split; intros r Hr.
+    + assert (r = 0) by lia. subst r. simpl. rewrite psum_one. reflexivity.
+    + destruct (r =? 0) eqn:E; [lia | reflexivity].
+  - replace (Z.of_nat (S k)) with (Z.of_nat k + 1) in * by lia.
+    rewrite zrange_app, zrange_one by lia. rewrite fold_left_app. cbn [fold_left].
+    destruct IHk as [I1 I2]; [lia|].
+    set (a0 := fold_left _ (zrange 1 (Z.of_nat k)) _) in *.
+    split; intros r Hr; unfold updz.
+    + destruct (r =? 1 + Z.of_nat k) eqn:E.
+      * assert (r = 1 + Z.of_nat k) by lia. subst r. rewrite qadd_ok.
+        rewrite I1 by lia.
+        replace (1 + Z.of_nat k + 1) with ((1 + Z.of_nat k - 1 + 1) + 1) by lia.
+        rewrite (psum_split col 0 (1 + Z.of_nat k - 1 + 1) 1), psum_one by lia.
+        replace (0 + (1 + Z.of_nat k - 1 + 1)) with (1 + Z.of_nat k) by lia. reflexivity.
+      * apply I1. lia.
+    + destruct (r =? 1 + Z.of_nat k) eqn:E; [lia|]. apply I2. lia.
+Qed.
+
+Lemma step3_read : forall nr col i, 1 <= nr -> -1 <= i < nr ->
+  step3_col nr col (wrap (nr + 1) i) == psum col 0 (i + 1).
+Proof.
+  intros. unfold step3_col.
+  destruct (step3_inv nr col (Z.to_nat (nr - 1))) as [I1 I2]; [lia|].
+  replace (Z.of_nat (Z.to_nat (nr - 1))) with (nr - 1) in * by lia.
+  unfold wrap. destruct (i <? 0) eqn:E.
+  - rewrite I2 by lia. rewrite psum_nil by lia. reflexivity.
+  - apply I1. lia.
+Qed.
+
+(* the sentinel row of step 3 is never written: a read through index -1 returns 0 *)
+Theorem step3_read_minus_one_is_zero : forall nr col, 1 <= nr ->
+  step3_col nr col (wrap (nr + 1) (-1)) = 0%Q.
+Proof.
+  intros. unfold step3_col.
+  destruct (step3_inv nr col (Z.to_nat (nr - 1))) as [_ I2]; [lia|].
+  replace (Z.of_nat (Z.to_nat (nr - 1))) with (nr - 1) in * by lia.
+  apply I2. unfold wrap. change (-1 <? 0) with true. cbv iota. lia.
+Qed.
+
+Lemma step3_diff : forall nr col a b, 1 <= nr -> 0 <= a -> a <= b -> b < nr ->
+  step3_col nr col b - step3_col nr col (wrap (nr + 1) (a - 1)) == psum col a (b - a + 1).
+Proof.
+  intros.
+  assert (Hb : step3_col nr col b == psum col 0 (b + 1)).
+  { replace b with (wrap (nr + 1) b) at 1 by (unfold wrap; destruct (b <? 0) eqn:E; lia).
+    apply step3_read; lia. }
+  rewrite Hb, step3_read by lia.
+  replace (b + 1) with (a + (b - a + 1)) by lia. rewrite psum_split by lia.
+  replace (a - 1 + 1) with a by lia. replace (0 + a) with a by lia. ring.
+Qed.
+
+(* ---------------------------------------------------------------- the correspondent column *)
+
+Lemma Qfloor_unique : forall x z, (inject_Z z <= x)%Q -> (x < inject_Z (z + 1))%Q -> Qfloor x = z.
+Proof.
+  intros x z H1 H2.
+  pose proof (Qfloor_le x) as F1. pose proof (Qlt_floor x) as F2.
+  assert (z < Qfloor x + 1).
+  { rewrite Zlt_Qlt. eapply Qle_lt_trans; eauto. }
+  assert (Qfloor x < z + 1).
+  { rewrite Zlt_Qlt. eapply Qle_lt_trans; eauto. }
+  lia.
+Qed.
+
+Lemma Qfloor_plus_Z : forall c d, Qfloor (inject_Z c + d) = c + Qfloor d.
+Proof.
+  intros. apply Qfloor_unique.
+  - rewrite inject_Z_plus. apply Qplus_le_r. apply Qfloor_le.
+  - replace (c + Qfloor d + 1) with (c + (Qfloor d + 1)) by lia.
+    rewrite inject_Z_plus. apply Qplus_lt_r. apply Qlt_floor.
+Qed.
+
+Lemma valid_col_iff : forall ncR d c,
+  valid_col ncR d c = true <-> 0 <= c + Qfloor d < ncR.
+Proof.
+  intros. unfold valid_col. rewrite andb_true_iff, negb_true_iff.
+  rewrite Qle_bool_iff. rewrite <- Qfloor_plus_Z.
+  set (x := (inject_Z c + d)%Q).
+  pose proof (Qfloor_le x) as F1. pose proof (Qlt_floor x) as F2.
+  split.
+  - intros [H1 H2]. split.
+    + change 0 with (Qfloor 0). apply Qfloor_resp_le. exact H1.
+    + rewrite Zlt_Qlt. eapply Qle_lt_trans; [exact F1|].
+      apply Qnot_le_lt. intro A. apply Qle_bool_iff in A. congruence.
+  - intros [H1 H2]. split.
+    + eapply Qle_trans; [|exact F1]. change 0%Q with (inject_Z 0). rewrite <- Zle_Qle. exact H1.
+    + destruct (Qle_bool (inject_Z ncR) x) eqn:A; auto. apply Qle_bool_iff in A.
+      exfalso. apply (Qlt_irrefl x). eapply Qlt_le_trans; [exact F2|].
+      eapply Qle_trans; [|exact A]. rewrite <- Zle_Qle. lia.
+Qed.
